@@ -23,7 +23,7 @@ CHECKS = {
             TECH, "DESIGN.md 3 C01"),
     "C02": ("other",
             "Deductive: cumsum_biggest_until (prefix/content/tight/order/last/warn; 1-D arrays and 2-D / 3-D grids through ravel / unravel_index; induction lemmas), cell_averaged_pdf (all 2-D/3-D structures, loop invariant), "
-            "cell_averaged_joint_pdf, _check_grid, _compute up to the erosion call (1-alpha, cell volume, fm, warning path, full structure). Bounded: real grids incl. N-D ravel, default limits.",
+            "cell_averaged_joint_pdf, _check_grid, _compute up to the erosion call (1-alpha, cell volume, fm, warning path, full structure); the cdf contracts of every family and of ConditionalDistribution that the cell probabilities are differences of. Bounded: real grids incl. N-D ravel, default limits.",
             ASSUME + "Two paper lemmas about prefix masks (pigeonhole) are listed as trusted; ravel / unravel_index are assumed to be mutually inverse bijections between flat positions and cells.",
             TECH + " + bounded run-time contracts", "DESIGN.md 3 C02"),
     "C03": ("other",
